@@ -155,7 +155,10 @@ pub fn mutate(t: &mut Tape, input: Vec<u8>) -> (Vec<u8>, &'static str) {
             // a very long line
             let i = t.below(n);
             let unit: &[u8] = *t.pick(&[&b"x"[..], b"ab ", b"\xe4\xb8\x96", b"\t", b"\x1b[31mx\x1b[m", b"a\xcc\x81"]);
-            let reps = *t.pick(&[200usize, 1000, 3000, 3001, 20000]);
+            // (wrapping cost is quadratic in the line length: sizes are bounded so that the
+            // legitimate cost stays far below the watchdog; see DESIGN C03 "Not reached")
+            let reps = *t.pick(&[200usize, 1000, 3000, 3001, 6000]);
+            let reps = if unit == b"\t" { reps.min(400) } else { reps };
             let mut l = lines[i].clone();
             for _ in 0..reps / unit.len().max(1) + 1 {
                 l.extend_from_slice(unit);
